@@ -2,6 +2,7 @@
 import Verif.Common.Proto
 import Verif.Common.SemJson
 import Verif.C06.Model
+import Verif.C06.Spec
 open Lean Verif.Proto Verif.Sem Verif.C06
 
 namespace Verif.C06.Driver
@@ -38,7 +39,8 @@ def isoAnswer (properties : Bool) (m1 m2 : MRS) : Except Err Json := do
     ("map", jMap (vf2 a1 a2)),
     ("g1", jGraph g1),
     ("a1", jGraph a1),
-    ("clean", Json.bool (cleanGraph g1 && cleanGraph g2))])
+    ("clean", Json.bool (cleanGraph g1 && cleanGraph g2)),
+    ("hyps", Json.bool (encodingHyps m1 && encodingHyps m2))])
 
 def handle (j : Json) : Except String Json := do
   let op ← getStr j "op"
